@@ -268,7 +268,8 @@ macro_rules! functionality {
             /// **Output**: Signature `𝜎 ∈ 𝔹𝜆/4+ℓ⋅32⋅(1+bitlen (𝛾1−1))+𝜔+𝑘`.
             ///
             /// # Errors
-            /// Returns an error when the random number generator fails or context too long.
+            /// Returns an error when the random number generator fails or context too long
+            /// (or if the rejection loop does not terminate, which only a malformed key can cause).
             fn try_sign_with_rng(
                 &self, rng: &mut impl CryptoRngCore, message: &[u8], ctx: &[u8],
             ) -> Result<Self::Signature, &'static str> {
@@ -293,7 +294,7 @@ macro_rules! functionality {
                 // 11: 𝜎 ← ML-DSA.Sign_internal(𝑠𝑘, 𝑀 ′ , 𝑟𝑛𝑑)
                 let sig = ml_dsa::sign_internal::<CTEST, K, L, LAMBDA_DIV4, SIG_LEN, SK_LEN, W1_LEN>(
                     BETA, GAMMA1, GAMMA2, OMEGA, TAU, &self, message, ctx, &[], &[], rnd, false
-                );
+                )?;
 
                 // 12: return 𝜎
                 Ok(sig)
@@ -310,7 +311,8 @@ macro_rules! functionality {
             /// **Output**: ML-DSA signature `𝜎 ∈ 𝔹^{𝜆/4+ℓ⋅32⋅(1+bitlen(𝛾1 −1))+𝜔+𝑘}`.
             ///
             /// # Errors
-            /// Returns an error when the random number generator fails or context too long.
+            /// Returns an error when the random number generator fails or context too long
+            /// (or if the rejection loop does not terminate, which only a malformed key can cause).
             fn try_hash_sign_with_rng(
                 &self, rng: &mut impl CryptoRngCore, message: &[u8], ctx: &[u8], ph: &types::Ph,
             ) -> Result<Self::Signature, &'static str> {
@@ -339,7 +341,7 @@ macro_rules! functionality {
                 // 24: 𝜎 ← ML-DSA.Sign_internal(𝑠𝑘, 𝑀 ′ , 𝑟𝑛𝑑)
                 let sig = ml_dsa::sign_internal::<CTEST, K, L, LAMBDA_DIV4, SIG_LEN, SK_LEN, W1_LEN>(
                     BETA, GAMMA1, GAMMA2, OMEGA, TAU, &self, message, ctx, &oid, &phm[0..phm_len], rnd, false
-                );
+                )?;
 
                 // 25: return 𝜎
                 Ok(sig)
@@ -568,7 +570,7 @@ macro_rules! functionality {
             rng.try_fill_bytes(&mut rnd).map_err(|_| "Random number generator failed")?;
             let sig = ml_dsa::sign_internal::<true, K, L, LAMBDA_DIV4, SIG_LEN, SK_LEN, W1_LEN>(
                 BETA, GAMMA1, GAMMA2, OMEGA, TAU, &sk, message, &[1], &[2], &[3], rnd, true
-            );
+            )?;
             Ok(sig)
         }
 
@@ -588,7 +590,7 @@ macro_rules! functionality {
             helpers::ensure!(ctx.len() < 256, "_internal_sign: ctx too long");
             let sig = ml_dsa::sign_internal::<CTEST, K, L, LAMBDA_DIV4, SIG_LEN, SK_LEN, W1_LEN>(
                 BETA, GAMMA1, GAMMA2, OMEGA, TAU, sk, message, ctx, &[], &[], rnd, true
-            );
+            )?;
             Ok(sig)
         }
 
